@@ -38,7 +38,13 @@ type c08Beh struct {
 	client    string // what NodeVersion reports
 	errText   string // "" = accept
 	tolerated bool   // the rejection is one vouch deliberately tolerates from that client for this kind
+	// firstChunkErr: the request that carries the payload's first element is rejected with this text instead (the
+	// chunks of one payload fare differently at the node)
+	firstChunkErr string
 }
+
+// c08FirstAtt is the first element of the attestation payload built last.
+var c08FirstAtt *phase0.Attestation
 
 var c08Lats = []int{0, 1, 2, 3, -1} // seconds; -1 = hangs forever
 
@@ -86,6 +92,13 @@ func (n *c08Node) handle(ctx context.Context, items []any) error {
 	}
 	n.got = append(n.got, items...)
 	n.endAt = append(n.endAt, mc.Now())
+	if n.beh.firstChunkErr != "" {
+		for _, it := range items {
+			if a, ok := it.(*phase0.Attestation); ok && a == c08FirstAtt {
+				return errors.New(n.beh.firstChunkErr)
+			}
+		}
+	}
 	if n.beh.errText != "" {
 		return errors.New(n.beh.errText)
 	}
@@ -173,6 +186,9 @@ func mkAtts(size int) []*phase0.Attestation {
 	for i := range out {
 		out[i] = &phase0.Attestation{AggregationBits: bitfield.NewBitlist(4), Data: c07AttData('A')}
 	}
+	if size > 0 {
+		c08FirstAtt = out[0]
+	}
 	return out
 }
 
@@ -208,6 +224,10 @@ func c08Kinds() []c08Kind {
 		// the texts tolerated from one client are plain rejections from another
 		c08Beh{name: "teku-target", client: "teku", errText: "POST failed with status 400: Attempt to send attestation for unknown target"},
 		c08Beh{name: "nimbus-behind", client: "Nimbus", errText: "POST failed with status 400: UnknownHeadBlock 0x1234"},
+		// the chunk with the payload's first attestation meets a server error, the other chunks a tolerated rejection: the
+		// node has not taken the payload
+		c08Beh{name: "lh-chunks-differ", client: "Lighthouse", firstChunkErr: "POST failed with status 500: internal error",
+			errText: "POST failed with status 400: {\"code\":400,\"message\":\"BAD_REQUEST: PriorAttestationKnown\"}"},
 	)
 	msgs := append(append([]c08Beh{}, c08Basic...),
 		c08Beh{name: "lh-alldup", client: "Lighthouse", errText: lhPrefix + lhDupMsg, tolerated: true},
